@@ -31,6 +31,7 @@ type Program struct {
 	Lemmas   []*Decl
 	TypeInvs map[string][]*Decl // by type string
 	TypeAttr map[string]string
+	TypeDef  map[string]string // immutable type -> spec function U(n, k) that defines the abstract view of a fresh object when it is published
 	Globals  map[string]*Decl
 	Tables   []*Decl
 	Ghosts   map[string]*GhostDecl
@@ -69,7 +70,7 @@ func LoadProgram(repo string, overlay map[string][]byte) (*Program, error) {
 	prog, _ := ssautil.AllPackages(pkgs, ssa.InstantiateGenerics|ssa.GlobalDebug)
 	prog.Build()
 	P := &Program{Prog: prog, Pkgs: map[string]*ssa.Package{}, TPkgs: map[string]*packages.Package{}, Funcs: map[string]*Decl{}, Externs: map[string]*Decl{},
-		SpecFuns: map[string]*Decl{}, TypeInvs: map[string][]*Decl{}, TypeAttr: map[string]string{}, Globals: map[string]*Decl{}, Ghosts: map[string]*GhostDecl{},
+		SpecFuns: map[string]*Decl{}, TypeInvs: map[string][]*Decl{}, TypeAttr: map[string]string{}, TypeDef: map[string]string{}, Globals: map[string]*Decl{}, Ghosts: map[string]*GhostDecl{},
 		FuncTypes: map[string]*Decl{}, typeIDs: map[string]int{}, implCache: map[string][]types.Type{}, fnByKey: map[string]*ssa.Function{}, RepoDir: repo}
 	for _, p := range prog.AllPackages() {
 		P.Pkgs[p.Pkg.Path()] = p
@@ -248,7 +249,14 @@ func (P *Program) LoadContracts() error {
 				if d.Attr == "invariant" {
 					P.TypeInvs[d.Name] = append(P.TypeInvs[d.Name], d)
 				} else {
-					P.TypeAttr[d.Name] = d.Attr
+					attr := strings.TrimSpace(d.Attr)
+					if i := strings.Index(attr, "defined-by "); i >= 0 {
+						P.TypeDef[d.Name] = strings.TrimSpace(attr[i+len("defined-by "):])
+						attr = strings.TrimSpace(attr[:i])
+					}
+					if attr != "" {
+						P.TypeAttr[d.Name] = attr
+					}
 				}
 			case "global":
 				P.Globals[d.Name] = d
